@@ -94,3 +94,26 @@ Lemma firstn_app_le {X} n (a b : list X) : n <= length a -> firstn n (a ++ b) = 
 Proof.
   intros H. rewrite firstn_app. replace (n - length a) with 0 by lia. cbn. apply app_nil_r.
 Qed.
+
+Lemma nth_map_seq {X} (f : nat -> X) N n d : n < N -> nth n (map f (seq 0 N)) d = f n.
+Proof.
+  intros H. rewrite (nth_indep _ d (f 0)) by (now rewrite map_length, seq_length).
+  rewrite map_nth, seq_nth by exact H. reflexivity.
+Qed.
+
+Lemma nth_map' {X Y} (f : X -> Y) l n dx dy : n < length l -> nth n (map f l) dy = f (nth n l dx).
+Proof.
+  intros H. rewrite (nth_indep _ dy (f dx)) by (now rewrite map_length). apply map_nth.
+Qed.
+
+Lemma list_eq_map_nth {X} (d : X) l : l = map (fun n => nth n l d) (seq 0 (length l)).
+Proof.
+  apply (nth_ext _ _ d d); [now rewrite map_length, seq_length|].
+  intros n Hn. rewrite nth_map_seq by exact Hn. reflexivity.
+Qed.
+
+Lemma nth_firstn_lt {X} (d : X) : forall l n j, j < n -> nth j (firstn n l) d = nth j l d.
+Proof.
+  induction l as [|x l IH]; intros n j H; [now rewrite firstn_nil|].
+  destruct n; [lia|]. destruct j; [reflexivity|]. cbn. apply IH. lia.
+Qed.
